@@ -576,8 +576,9 @@ def capture_request(request):
 
 def make_client(spec, captured, is_async):
     cm = importlib.import_module(STATE["pkg"] + ".client")
-    rs = spec.get("response", {"status": 200})
+    rs0 = spec.get("response", {"status": 200})
     def mk_response():
+        rs = STATE.get("response_spec") or rs0
         return httpx.Response(rs.get("status", 200), headers=[tuple(h) for h in rs.get("headers", [])], content=base64.b64decode(rs.get("content", "")))
     def handler(request):
         captured.append(capture_request(request))
@@ -619,7 +620,32 @@ def response_desc(r):
     return desc(r)
 
 
+def _call_outcome(fn, r, captured_slice):
+    res = {"result": response_desc(r)}
+    parsed = r.parsed if hasattr(r, "parsed") and type(r).__name__ == "Response" else r
+    tp = []
+    try:
+        hints = typing.get_type_hints(fn)
+        rh = hints.get("return")
+        if rh is not None:
+            c = conforms(r, rh, models_ns()) if not (type(r).__name__ == "Response") else None
+            if type(r).__name__ == "Response":
+                ra = typing.get_args(rh)
+                if ra:
+                    c = conforms(r.parsed, typing.Optional[ra[0]], models_ns())
+            if c:
+                tp.append(f"return: {c} (annotation {hint_str(rh)})")
+    except Exception as ex:
+        tp.append(f"get_type_hints: {type(ex).__name__}: {ex}")
+    for sub in parsed if isinstance(parsed, list) else [parsed]:
+        tp += type_problems(sub)
+    res["type_problems"] = tp
+    return res
+
+
 def act_call(a):
+    """One call per variant on a fresh client; `followups` (further calls, possibly of other operations) are made on the SAME client
+    right after it, so that state a call leaves on the client (cookies, headers, the cached httpx client) meets the next request."""
     m = importlib.import_module(STATE["pkg"] + "." + a["module"])
     out = {}
     for variant in a.get("variants", ["sync_detailed"]):
@@ -629,52 +655,79 @@ def act_call(a):
         fn = getattr(m, variant)
         captured = []
         res = {}
+        steps = [(fn, a)]
+        for fu in a.get("followups") or []:
+            try:
+                fm = importlib.import_module(STATE["pkg"] + "." + fu["module"])
+                steps.append((getattr(fm, variant, None), fu))
+            except BaseException as ex:
+                steps.append((None, fu))
+        outcomes = []
         try:
             is_async = variant.startswith("asyncio")
             client = make_client(a, captured, is_async)
-            kwargs = {k: build(v) for k, v in a.get("args", {}).items()}
-            pos = [build(v) for v in a.get("pos", [])]
             use_ctx = bool((a.get("client") or {}).get("context"))
+
+            def one_sync(c_):
+                for f_, spec in steps:
+                    n0 = len(captured)
+                    if f_ is None:
+                        outcomes.append({"missing": True, "requests": []})
+                        continue
+                    STATE["response_spec"] = spec.get("response", {"status": 200})
+                    try:
+                        kwargs = {k: build(v) for k, v in spec.get("args", {}).items()}
+                        pos = [build(v) for v in spec.get("pos", [])]
+                        r_ = f_(*pos, client=c_, **kwargs)
+                        o_ = _call_outcome(f_, r_, None)
+                    except BaseException as ex:
+                        o_ = {"exc": exc_info(ex)}
+                    o_["requests"] = captured[n0:]
+                    outcomes.append(o_)
+
+            async def one_async(c_):
+                for f_, spec in steps:
+                    n0 = len(captured)
+                    if f_ is None:
+                        outcomes.append({"missing": True, "requests": []})
+                        continue
+                    STATE["response_spec"] = spec.get("response", {"status": 200})
+                    try:
+                        kwargs = {k: build(v) for k, v in spec.get("args", {}).items()}
+                        pos = [build(v) for v in spec.get("pos", [])]
+                        r_ = await f_(*pos, client=c_, **kwargs)
+                        o_ = _call_outcome(f_, r_, None)
+                    except BaseException as ex:
+                        o_ = {"exc": exc_info(ex)}
+                    o_["requests"] = captured[n0:]
+                    outcomes.append(o_)
+
             if is_async:
                 async def run():
                     if use_ctx:
                         async with client as c_:
-                            return await fn(*pos, client=c_, **kwargs)
+                            return await one_async(c_)
                     try:
-                        return await fn(*pos, client=client, **kwargs)
+                        return await one_async(client)
                     finally:
                         try:
                             await client.get_async_httpx_client().aclose()
                         except Exception:
                             pass
-                r = asyncio.run(run())
+                asyncio.run(run())
             elif use_ctx:
                 with client as c_:
-                    r = fn(*pos, client=c_, **kwargs)
+                    one_sync(c_)
             else:
-                r = fn(*pos, client=client, **kwargs)
-            res["result"] = response_desc(r)
-            parsed = r.parsed if hasattr(r, "parsed") and type(r).__name__ == "Response" else r
-            tp = []
-            try:
-                hints = typing.get_type_hints(fn)
-                rh = hints.get("return")
-                if rh is not None:
-                    c = conforms(r, rh, models_ns()) if not (type(r).__name__ == "Response") else None
-                    if type(r).__name__ == "Response":
-                        ra = typing.get_args(rh)
-                        if ra:
-                            c = conforms(r.parsed, typing.Optional[ra[0]], models_ns())
-                    if c:
-                        tp.append(f"return: {c} (annotation {hint_str(rh)})")
-            except Exception as ex:
-                tp.append(f"get_type_hints: {type(ex).__name__}: {ex}")
-            for sub in parsed if isinstance(parsed, list) else [parsed]:
-                tp += type_problems(sub)
-            res["type_problems"] = tp
+                one_sync(client)
         except BaseException as ex:
-            res["exc"] = exc_info(ex)
-        res["requests"] = captured
+            if not outcomes:
+                outcomes.append({"exc": exc_info(ex), "requests": captured})
+        finally:
+            STATE["response_spec"] = None
+        res = outcomes[0] if outcomes else {"requests": captured}
+        if len(steps) > 1:
+            res["followups"] = outcomes[1:]
         out[variant] = res
     return out
 
